@@ -12,9 +12,11 @@ import (
 // the reference:  M.<type>.dom : ref -> key -> Bool,  M.<type>.val<leaf> : ref -> key -> leaf,
 // M.<type>.len : ref -> Int (as region -> index 0).
 type MapV struct {
-	Ref      *Term
-	Key, Val types.Type
-	Typ      types.Type
+	Ref       *Term
+	Key, Val  types.Type
+	Typ       types.Type
+	Guard     *Term // region of the object whose mutex protects this map (nil: unguarded)
+	GuardInfo *Guard
 }
 
 func mapTypeOf(t types.Type) *types.Map { return t.Underlying().(*types.Map) }
@@ -100,6 +102,9 @@ func (x *Exec) makeMap(st *State, t types.Type) Value {
 
 // has: key present.
 func (x *Exec) mapHas(h *Heap, m MapV, k Value) *Term {
+	if m.Ref.IsInt() && m.Ref.Val.Sign() == 0 {
+		return tFalse // the nil map is empty
+	}
 	dom, _ := m.domFam(h)
 	return Select(Select(dom, m.Ref), keyTerm(k))
 }
@@ -231,7 +236,7 @@ func (x *Exec) rangeStart(st *State, fr *Frame, i *ssa.Range) Value {
 	ks := keySort(m.Key)
 	id := fresh("iter")
 	it := Iter{M: m, Seq: Sym(id+".seq", arrSort(SInt, ks)), N: Sym(id+".n", SInt), Name: id, Idx: id + ".idx"}
-	declareFun(it.Idx, fmt.Sprintf("(declare-fun |%s| (%s) Int)", it.Idx, ks))
+	declareFun("|"+it.Idx+"|", fmt.Sprintf("(declare-fun |%s| (%s) Int)", it.Idx, ks))
 	dom, _ := m.domFam(st.heap)
 	it.Dom0 = Select(dom, m.Ref)
 	st.assume(Ge(it.N, Int(0)))
@@ -271,5 +276,3 @@ func (x *Exec) rangeNext(st *State, fr *Frame, i *ssa.Next) Value {
 	st.ghost[it.Name+".pos"] = Ite(okT, Add(pos, Int(1)), pos)
 	return Tup{Sc{okT}, kv, v}
 }
-
-func (x *Exec) guardMap(st *State, m MapV, pos token.Pos, what string) {}
